@@ -92,31 +92,45 @@ func rulesNewickNames(c *Ctx, r *Report) {
 	}
 	specials := map[int64]bool{}
 	var otherUses []string
-	for _, ref := range *inByte.Referrers() {
-		switch x := ref.(type) {
-		case *ssa.BinOp:
-			k, ok := cInt(constVal(x.Y))
-			if !ok {
-				k, ok = cInt(constVal(x.X))
+	var classify func(v ssa.Value, depth int)
+	classify = func(v ssa.Value, depth int) {
+		for _, ref := range *v.Referrers() {
+			switch x := ref.(type) {
+			case *ssa.BinOp:
+				k, ok := cInt(constVal(x.Y))
+				if !ok {
+					k, ok = cInt(constVal(x.X))
+				}
+				if ok && (x.Op == token.EQL || x.Op == token.NEQ) {
+					specials[k] = true
+				} else {
+					otherUses = append(otherUses, "comparison "+x.Op.String()+" at "+c.pos(x.Pos()))
+				}
+			case *ssa.Call:
+				if methIs(x.Call.StaticCallee(), "bytes", "Buffer", "WriteByte") {
+					continue
+				}
+				// handed to a helper of the package: what the helper does with it counts the same way
+				if g := x.Call.StaticCallee(); g != nil && g.Blocks != nil && g.Pkg == tok.Pkg && depth < 2 && len(g.Params) == len(x.Call.Args) {
+					for i, a := range x.Call.Args {
+						if a == v {
+							r.analysed(fname(g))
+							classify(g.Params[i], depth+1)
+						}
+					}
+					continue
+				}
+				otherUses = append(otherUses, "passed to "+callName(x)+" at "+c.pos(x.Pos()))
+			case *ssa.Store: // string([]byte{b})
+			case *ssa.DebugRef:
+			case *ssa.Convert:
+				otherUses = append(otherUses, "converted at "+c.pos(x.Pos()))
+			default:
+				otherUses = append(otherUses, fmt.Sprintf("%T at %s", ref, c.pos(ref.Pos())))
 			}
-			if ok && (x.Op == token.EQL || x.Op == token.NEQ) {
-				specials[k] = true
-			} else {
-				otherUses = append(otherUses, "comparison "+x.Op.String()+" at "+c.pos(x.Pos()))
-			}
-		case *ssa.Call:
-			if methIs(x.Call.StaticCallee(), "bytes", "Buffer", "WriteByte") {
-				continue
-			}
-			otherUses = append(otherUses, "passed to "+callName(x)+" at "+c.pos(x.Pos()))
-		case *ssa.Store: // string([]byte{b})
-		case *ssa.DebugRef:
-		case *ssa.Convert:
-			otherUses = append(otherUses, "converted at "+c.pos(x.Pos()))
-		default:
-			otherUses = append(otherUses, fmt.Sprintf("%T at %s", ref, c.pos(ref.Pos())))
 		}
 	}
+	classify(inByte, 0)
 	r.check(len(otherUses) == 0, "G3", fname(tok), "classification by constants only", c.pos(inByte.Pos()),
 		"the input byte is only compared with constants, appended to the token, or returned as a one-byte token",
 		"the input byte is also classified by something other than constant comparisons ("+strings.Join(otherUses, "; ")+"): the set of bytes the tokenizer splits on is not the set the writer protects")
@@ -313,6 +327,24 @@ func rulesNewickWriter(c *Ctx, r *Report) {
 	}
 	r.analysed(fname(w))
 	s := newSymb(w)
+	// whether a node has children is a matter of their number: an empty non-nil list is a leaf like a nil one
+	var nilTests []string
+	instrs(w, func(in ssa.Instruction) {
+		bo, ok := in.(*ssa.BinOp)
+		if !ok || (bo.Op != token.EQL && bo.Op != token.NEQ) {
+			return
+		}
+		for _, pr := range [][2]ssa.Value{{bo.X, bo.Y}, {bo.Y, bo.X}} {
+			if isNilConst(pr[1]) {
+				if _, isSlice := pr[0].Type().Underlying().(*types.Slice); isSlice && recvFieldName(w, s.expr(pr[0])) == "Children" {
+					nilTests = append(nilTests, c.pos(bo.Pos()))
+				}
+			}
+		}
+	})
+	r.check(len(nilTests) == 0, "END", fname(w), "children tested by number", c.pos(w.Pos()),
+		"the writer never compares Children with nil: a node with an empty list is written as the leaf it is",
+		fmt.Sprintf("the writer compares Children with nil at %v: a leaf whose list is empty but not nil is written with \"()\" and read back as an inner node with one child", nilTests))
 	// DIST0
 	var distWrite *ssa.Call
 	instrs(w, func(in ssa.Instruction) {
@@ -466,6 +498,17 @@ func rulesNewickWriter(c *Ctx, r *Report) {
 	r.check(okRec, "END", fname(w), "children in order", c.pos(w.Pos()), "the writer recurses into Children[0], Children[1], … in slice order, once each", "the writer does not visit every child once in slice order")
 	// MarshalText: newick(buf) then WriteByte(';') last
 	r.analysed(fname(mt))
+	// the text built by a stage of MarshalText whose result it returns as it is: return n.text(), nil
+	if len(staticCallsTo(mt, w)) == 0 && len(mt.Blocks) == 1 {
+		if rt, ok := lastInstr(mt.Blocks[0]).(*ssa.Return); ok && len(rt.Results) >= 1 {
+			if cl, ok := rt.Results[0].(*ssa.Call); ok {
+				if g := cl.Call.StaticCallee(); g != nil && g.Blocks != nil && g.Pkg == mt.Pkg && len(staticCallsTo(g, w)) > 0 && len(cl.Call.Args) == 1 && cl.Call.Args[0] == ssa.Value(mt.Params[0]) {
+					mt = g
+					r.analysed(fname(g))
+				}
+			}
+		}
+	}
 	var order []string
 	instrs(mt, func(in ssa.Instruction) {
 		cl, ok := in.(*ssa.Call)
@@ -506,30 +549,42 @@ func rulesNewickChildren(c *Ctx, r *Report) {
 		}
 	}
 	n := 0
-	instrs(rd, func(in ssa.Instruction) {
-		st, ok := in.(*ssa.Store)
-		if !ok {
-			return
+	// read() and the helpers of its package it calls (push helpers)
+	fns := []*ssa.Function{rd}
+	for _, g := range c.calleesIn(rd) {
+		if g.Pkg == rd.Pkg && g.Blocks != nil && g != rd {
+			fns = append(fns, g)
 		}
-		fa, ok := st.Addr.(*ssa.FieldAddr)
-		if !ok || fa.Field != childIdx {
-			return
-		}
-		if pt, ok := fa.X.Type().Underlying().(*types.Pointer); !ok || !types.Identical(pt.Elem(), node.Type()) {
-			return
-		}
-		n++
-		ok2 := false
-		if cl, ok := st.Val.(*ssa.Call); ok {
-			if b, ok := cl.Call.Value.(*ssa.Builtin); ok && b.Name() == "append" {
-				if ld, ok := cl.Call.Args[0].(*ssa.UnOp); ok && ld.Op == token.MUL {
-					if fa2, ok := ld.X.(*ssa.FieldAddr); ok && fa2.Field == childIdx && fa2.X == fa.X {
-						ok2 = true
+	}
+	for _, fn := range fns {
+		instrs(fn, func(in ssa.Instruction) {
+			st, ok := in.(*ssa.Store)
+			if !ok {
+				return
+			}
+			fa, ok := st.Addr.(*ssa.FieldAddr)
+			if !ok || fa.Field != childIdx {
+				return
+			}
+			if fn != rd {
+				r.analysed(fname(fn))
+			}
+			if pt, ok := fa.X.Type().Underlying().(*types.Pointer); !ok || !types.Identical(pt.Elem(), node.Type()) {
+				return
+			}
+			n++
+			ok2 := false
+			if cl, ok := st.Val.(*ssa.Call); ok {
+				if b, ok := cl.Call.Value.(*ssa.Builtin); ok && b.Name() == "append" {
+					if ld, ok := cl.Call.Args[0].(*ssa.UnOp); ok && ld.Op == token.MUL {
+						if fa2, ok := ld.X.(*ssa.FieldAddr); ok && fa2.Field == childIdx && fa2.X == fa.X {
+							ok2 = true
+						}
 					}
 				}
 			}
-		}
-		r.check(ok2, "CHILD", fname(rd), "children only grow", c.pos(st.Pos()), "this store appends one node to the same node's children", "this store replaces or shrinks a node's children: subtrees that the text contains are dropped or reordered")
-	})
+			r.check(ok2, "CHILD", fname(fn), "children only grow", c.pos(st.Pos()), "this store appends one node to the same node's children", "this store replaces or shrinks a node's children: subtrees that the text contains are dropped or reordered")
+		})
+	}
 	r.floor("CHILD", n, 2, "stores into Children in read() ('(' and ',')")
 }
